@@ -104,6 +104,8 @@ def run(ctx):
     # ---- leg A
     if T:
         vlib.tlc_mc(ctx, SPEC, "CachePlugin_c04.cfg", label="C04 design: 2 names x 3 types x 2 classes x 8 flag sets, <= 3 Exec")
+        vlib.tlc_mc(ctx, SPEC, "c04_deep.cfg", cfg_text=cl.cfg(MaxOps="4", Names='{"n1"}', Kinds='{"std", "qr"}'),
+                    label="C04 design: 1 name x 2 types x 2 classes x 8 flag sets x {std, qr}, <= 4 Exec")
     else:
         vlib.tlc_mc(ctx, SPEC, "c04_quick.cfg", cfg_text=cl.cfg(MaxOps="3"),
                     label="C04 design: 2 names x 2 types x 2 classes x 8 flag sets, <= 3 Exec")
